@@ -10,11 +10,21 @@ CXX_DIR = os.path.join(common.VERIF, "harness", "cxx")
 INC = os.path.join(CXX_DIR, "third_party")
 
 
+last_regeneration_diff = None
+
+
 def generate_cpp(fcp, outdir):
     """Run the real C++ generator and write its files into outdir."""
     from fcp_cpp import Generator
+    global last_regeneration_diff
     os.makedirs(outdir, exist_ok=True)
+    first = Generator().generate(fcp, {"output": outdir})
+    # the same parsed object is given to the generator a second time (as a long-running tool does): what is compiled is the second
+    # generation, and it must be the first one again (apart from the documented time stamp line)
     files = Generator().generate(fcp, {"output": outdir})
+    strip = lambda rs: [(os.path.basename(str(r["path"])), "\n".join(l for l in str(r["contents"]).split("\n") if "Generated using fcp" not in l)) for r in rs]
+    a, b = strip(first), strip(files)
+    last_regeneration_diff = None if a == b else sorted({n for n, _ in a} ^ {n for n, _ in b} | {n for (n, c), (m, d) in zip(a, b) if n == m and c != d})
     for r in files:
         with open(str(r["path"]), "w") as f:
             f.write(str(r["contents"]))
